@@ -103,16 +103,6 @@ pub fn run(cfg: &RunCfg, replay: Option<&[Step]>) -> RunOutput {
                 continue;
             }
         }
-        if let StOp::Rollback { g, name } = op {
-            // restoring a Nostr group id that another group has taken meanwhile: SQLite refuses
-            // (unique index), memory restores; random 32-byte ids never collide - outside the contract
-            if let Some((_, Some(grp), ..)) = model.snapshots.get(&(*g, *name)) {
-                if model.groups.iter().any(|(k, x)| k != g && x.nostr_group_id == grp.nostr_group_id) {
-                    out.log.push(format!("#{i} {op:?} -> skipped (would restore a Nostr group id now held by another group)"));
-                    continue;
-                }
-            }
-        }
         let a = apply(&mem, op, now);
         let b = apply(sql.s(), op, now);
         let m = model.apply(op, now);
